@@ -27,7 +27,7 @@ def specs(draw, tier):
     else:
         cap = {1: 48, 2: 16, 3: 8}[dim]
         shape = [draw(st.integers(3, cap)) for _ in range(dim)]
-    base = draw(st.one_of(st.just(1.0), *([st.floats(-2.5, 2.5, **finite).map(lambda e: gen.r6(10**e))] * 5)))
+    base = draw(st.one_of(st.just(1.0), *([st.floats(-2.5, 2.5, **finite).map(lambda e: gen.r6(10**e))] * 5), st.floats(-6, 8, **finite).map(lambda e: gen.r6(10**e))))  # (the last: tiny / huge length units)
     aniso = draw(st.booleans()) and dim > 1
     spacing = [gen.r6(base * (draw(st.floats(0.5, 2, **finite)) if aniso else 1.0)) for _ in range(dim)]
     spec = {
@@ -123,6 +123,8 @@ class C17(Property):
         dk = 2 * math.pi / float(L.max())
         ctx.cls(method, f"dim{dim}", "spacing=1" if spacing[0] == 1.0 else ("spacing<0.3" if spacing[0] < 0.3 else ("spacing>0.5" if spacing[0] > 0.5 else "spacing-like-tests")))
         used_by_tests = all(0.3 <= d <= 0.5 or d == 1 / 32 for d in spacing)
+        if spacing[0] > 1e3 or spacing[0] < 1e-3:
+            ctx.cls("extreme-length-unit")
         nontriv_t = any(shift) or s != 1.0
         ctx.nontrivial = (not used_by_tests) and nontriv_t
         idx = np.meshgrid(*[np.arange(n) for n in shape], indexing="ij")
